@@ -84,6 +84,12 @@ Proof.
   - left. reflexivity.
 Qed.
 
+(* the same with glob.matching.disabled in the picture: the flag changes nothing *)
+Theorem accepted_never_panics_any_flag size disabled calls :
+  load_then_use_settings size disabled calls = Err 1%N \/
+  exists l, load_then_use_settings size disabled calls = Ok l /\ ~ In Panic l.
+Proof. exact (accepted_never_panics size calls). Qed.
+
 Corollary accepted_runnable size p :
   load_accepts_glob_cache_size size = true -> runnable size p = true.
 Proof. intros H. apply runnable_on_domain. apply load_accepts_iff. exact H. Qed.
